@@ -345,6 +345,7 @@ type verifC31Scn struct {
 	notes    []string
 	quiesces int
 	lateQ    int
+	prog     int // data progress: batches handed to / finished by a writer, connections, reports, frames received
 }
 
 func (sc *verifC31Scn) emit(ev string, kv ...any) { sc.tr.Emit(ev, kv...) }
@@ -358,6 +359,7 @@ func (sc *verifC31Scn) note(f string, a ...any) {
 func (sc *verifC31Scn) noteRecv(id int) {
 	sc.mu.Lock()
 	sc.nRecv++
+	sc.prog++
 	if t, ok := sc.accAt[id]; ok {
 		if d := time.Since(t); d > sc.maxLat {
 			sc.maxLat = d
@@ -409,9 +411,13 @@ func (sc *verifC31Scn) process(ev string, b *pktBuffer, a []any) {
 		sc.nTimeout[s]++
 	case "SwapDone":
 		sc.emit("SwapDone", "s", s, "closed", a[0].(bool), "wi", a[1].(int))
+		if a[1].(int) > 0 {
+			sc.prog++
+		}
 		sc.asleep[s] = false
 		sc.timedOut[s] = false
 	case "PopWrite":
+		sc.prog++
 		ri, rm := a[0].(int), a[1].(int)
 		sc.emit("PopWrite", "s", s, "ri", ri, "rm", rm)
 		sc.lastN[s] = rm - ri
@@ -425,16 +431,19 @@ func (sc *verifC31Scn) process(ev string, b *pktBuffer, a []any) {
 			sc.permit[s]--
 		}
 	case "PopOK":
+		sc.prog++
 		sc.emit("PopOK", "s", s)
 		sc.pend[s] -= sc.lastN[s]
 		sc.nPopDone[s]++
 	case "PopErr":
+		sc.prog++
 		n, ri := a[0].(int), a[1].(int)
 		sc.emit("PopErr", "s", s, "left", n, "ri", ri)
 		sc.pend[s] -= ri - sc.lastRi[s] // packets pop() will not offer again (written or skipped)
 		sc.nPopDone[s]++
 		sc.nPopErr[s]++
 	case "Connected":
+		sc.prog++
 		sc.connSeq++
 		la := ""
 		if c, ok := a[0].(net.Conn); ok && c != nil {
@@ -446,6 +455,7 @@ func (sc *verifC31Scn) process(ev string, b *pktBuffer, a []any) {
 	case "ReconClose":
 		sc.emit("ReconClose", "s", s)
 	case "Report":
+		sc.prog++
 		n := a[0].(int64)
 		sc.emit("Report", "s", s, "amt", n)
 		sc.repSh += n
@@ -464,12 +474,24 @@ func (sc *verifC31Scn) process(ev string, b *pktBuffer, a []any) {
 const verifC31Ceiling = 5 * time.Second
 
 func (sc *verifC31Scn) waitFor(ceil time.Duration, pred func() bool, then func(ok bool)) bool {
+	return sc.waitForP(ceil, false, pred, then)
+}
+
+// waitForP: with idleOnly the ceiling only counts time in which no data progress was seen (a
+// batch handed to or finished by a writer, a connection, a report, a frame received upstream):
+// a machine that is slow but moving is not a witness of a stuck sender.
+func (sc *verifC31Scn) waitForP(ceil time.Duration, idleOnly bool, pred func() bool, then func(ok bool)) bool {
 	var resp time.Duration
 	start := time.Now()
+	lastProg := -1
 	for {
 		sc.mu.Lock()
+		if idleOnly && sc.prog != lastProg {
+			lastProg = sc.prog
+			resp = 0
+		}
 		ok := pred()
-		over := time.Since(start) > 4*time.Minute
+		over := time.Since(start) > 6*time.Minute
 		if ok || resp >= ceil || over {
 			if then != nil {
 				then(ok)
@@ -551,7 +573,7 @@ func (sc *verifC31Scn) quiesce(healthy ...int) bool {
 
 func (sc *verifC31Scn) quiesceCeil(ceil time.Duration, healthy ...int) bool {
 	t0 := time.Now()
-	ok := sc.waitFor(ceil, func() bool {
+	ok := sc.waitForP(ceil, true, func() bool {
 		for _, s := range healthy {
 			if sc.pend[s] != 0 {
 				return false
@@ -942,7 +964,8 @@ func verifC31ListenerStall(sc *verifC31Scn) {
 		sc.push(pktBodyMax - sc.rnd.Intn(100))
 	}
 	// healthy again only once the stalled write has timed out and the sender has reconnected
-	sc.waitFor(20*time.Second, func() bool { return sc.nPopErr[s] > before }, nil)
+	// (or the socket buffers swallowed everything and nothing is pending any more)
+	sc.waitFor(20*time.Second, func() bool { return sc.nPopErr[s] > before || sc.pend[s] == 0 }, nil)
 	sc.quiesce(1, 2)
 	sc.burst(1+sc.rnd.Intn(30), false)
 	sc.quiesce(1, 2)
